@@ -13,9 +13,10 @@ import GrassProofs.Lemmas.SelWalk
   * compound level (`superCompound0`, `unifyCompound`): complete, including the
     `:is(...)`-membership clause of simple.rs:370 on the right-hand side;
   * complex level: the index walk of complex.rs:141 for all four combinators (descendant, `>`,
-    `+`, `~`) — for the *specified* variant `asFound = false`, which adds the check `okSkip`;
-    the code as it stands (`asFound = true`) is unsound, see `C11_asFound_walk_unsound`;
-  * PARTIAL: selector pseudos (`:not/:is/:where/:matches(...)`) on the *left* of
+    `+`, `~`) — for the code as it stands (`asFound = false`: with
+    `compatible_with_previous_combinator`, complex.rs:289, added by fix 75edc67); the walk found
+    on the pinned tree (`asFound = true`) is unsound, see `C11_asFound_walk_unsound`;
+  * STILL OPEN: selector pseudos (`:not/:is/:where/:matches(...)`) on the *left* of
     `is-superselector` (`Pseudo::is_super_selector`, simple.rs:493) are modelled (`superPseudo`) and
     tied to the code by the correspondence run, but their soundness is not proved; the full
     statement is `C11_full`.
@@ -81,11 +82,11 @@ theorem superCompound_sound_noSel (f : Nat) (af : Bool) (c d : Compound) (ps : C
     (hc : noSelC c = true) (h : superCompound f af c d ps = true) (hd : mComp d q = true) :
     mComp c q = true := C11_isSuperCompound_sound_fuel f af c d ps q hc h hd
 
-/-- **is-superselector on complex selectors** (descendant, child, next-sibling and
-    following-sibling combinators): if the specified walk answers `true`, every element context
-    matched by `B` is matched by `A`.  PARTIAL: `A` carries no selector pseudo (`B` is arbitrary);
-    the variant is the specified one (`asFound = false`). -/
-theorem C11_isSuperComplex_sound_partial (f : Nat) (A B : Complex) (p : Ctx)
+/-- **is-superselector on complex selectors, for the code as it stands** (descendant, child,
+    next-sibling and following-sibling combinators): if the walk answers `true`, every element
+    context matched by `B` is matched by `A`.  Explicit guard: `A` carries no selector pseudo
+    (`B` is arbitrary) — selector pseudos on the left are what `C11_full` still asks for. -/
+theorem C11_isSuperComplex_sound (f : Nat) (A B : Complex) (p : Ctx)
     (hA : noSelX A = true) (h : superComplex f false A B = true)
     (hB : matchesComplex B p = true) : matchesComplex A p = true := by
   cases f with
@@ -98,12 +99,13 @@ theorem C11_isSuperComplex_sound_partial (f : Nat) (A B : Complex) (p : Ctx)
       have := walk_sound (fun c d ps => superCompound f false c d ps) (fun c => noSelC c = true)
         (fun c d ps q hc hs hd => superCompound_sound_noSel f false c d ps q hc hs hd)
         A.length A none B (Nat.le_refl _)
-        (fun c hc => by have := (List.all_eq_true.1 hA) _ hc; simpa using this) h q p hq
+        (fun c hc => by have := (List.all_eq_true.1 hA) _ hc; simpa using this)
+        (by intro hs; rcases hs with hs | hs | hs <;> cases hs) h q p hq
       obtain ⟨q', hq', _⟩ := this
       exact (matchesComplex_iff A p).2 ⟨q', hq'⟩
 
-/-- list level (list.rs:254) -/
-theorem C11_isSuperList_sound_partial (f : Nat) (L1 L2 : SelList) (p : Ctx)
+/-- list level (list.rs:254), same guard -/
+theorem C11_isSuperList_sound (f : Nat) (L1 L2 : SelList) (p : Ctx)
     (hA : noSelL L1 = true) (h : superList f false L1 L2 = true)
     (hB : matchesList L2 p = true) : matchesList L1 p = true := by
   cases f with
@@ -116,9 +118,9 @@ theorem C11_isSuperList_sound_partial (f : Nat) (L1 L2 : SelList) (p : Ctx)
     have := (List.all_eq_true.1 h) c1 hc1
     rw [List.any_eq_true] at this
     obtain ⟨c2, hc2, hs⟩ := this
-    exact ⟨c2, hc2, C11_isSuperComplex_sound_partial f c2 c1 p ((List.all_eq_true.1 hA) c2 hc2) hs hm⟩
+    exact ⟨c2, hc2, C11_isSuperComplex_sound f c2 c1 p ((List.all_eq_true.1 hA) c2 hc2) hs hm⟩
 
-/-- the pseudo-free walk used by `trim` (C10), sound for arbitrary compounds -/
+/-- the walk with the pseudo-free compound test (used by `trim` in C10), sound for arbitrary compounds -/
 theorem isSuperComplex0_sound (A B : Complex) (p : Ctx) (h : isSuperComplex0 false A B = true)
     (hB : matchesComplex B p = true) : matchesComplex A p = true := by
   unfold isSuperComplex0 at h
@@ -127,7 +129,7 @@ theorem isSuperComplex0_sound (A B : Complex) (p : Ctx) (h : isSuperComplex0 fal
   · obtain ⟨q, hq⟩ := (matchesComplex_iff B p).1 hB
     obtain ⟨q', hq', _⟩ := walk_sound (fun c d _ => superCompound0 c d) (fun _ => True)
       (fun c d _ q _ hs hd => C11_isSuperCompound_sound c d q hs hd) A.length A none B (Nat.le_refl _)
-      (fun _ _ => trivial) h q p hq
+      (fun _ _ => trivial) (by intro hs; rcases hs with hs | hs | hs <;> cases hs) h q p hq
     exact (matchesComplex_iff A p).2 ⟨q', hq'⟩
 
 private def selA : Complex := [.compound [.type ['a']], .comb .child, .compound [.type ['b']], .compound [.type ['c']]]
@@ -136,16 +138,16 @@ private def selB : Complex := [.compound [.type ['a']], .comb .child, .compound 
 private def el (t : Name) : Elem := { type := t, id := none, classes := [], attrs := [], flags := [], pe := none }
 private def ctxB : Ctx := ⟨⟨el ['c'], []⟩, [⟨el ['b'], []⟩, ⟨el ['x'], []⟩, ⟨el ['a'], []⟩]⟩
 
--- non-vacuity of the theorem: a `true` of the specified walk with sibling and child combinators
+-- non-vacuity of the theorem: a `true` of the walk with sibling and child combinators
 example : superComplex 3 false
     [.compound [.type ['a']], .comb .later, .compound [.cls ['x']], .compound [.type ['c']]]
     [.compound [.type ['a'], .id ['i']], .comb .next, .compound [.cls ['x'], .cls ['y']], .comb .child, .compound [.type ['c']]]
     = true := by decide +kernel
 
-/-- **The code as it stands is unsound** (known finding S1): `is-superselector("a > b c",
-    "a > x > b c")` is `true` (components of the subselector are skipped after a `>`), although
-    `c` inside `b` inside `x` inside `a` is matched by the second selector only.  The specified
-    variant answers `false` on the same input. -/
+/-- **The walk found on the pinned tree was unsound** (finding C11-S1, fixed by 75edc67):
+    `is-superselector("a > b c", "a > x > b c")` was `true` (components of the subselector were
+    skipped after a `>`), although `c` inside `b` inside `x` inside `a` is matched by the second
+    selector only.  The repaired walk answers `false` on the same input. -/
 theorem C11_asFound_walk_unsound :
     superComplex 3 true selA selB = true ∧ superComplex 3 false selA selB = false ∧
     matchesComplex selB ctxB = true ∧ matchesComplex selA ctxB = false := by
